@@ -5,7 +5,7 @@ import logging
 import weakref
 from typing import TYPE_CHECKING
 
-from claripy import Or, backends
+from claripy import Or, backends, false
 from claripy.ast import Base
 from claripy.errors import BackendError, UnsatError
 
@@ -279,6 +279,13 @@ class CompositeFrontend(ConstrainedFrontend):
         self._store_child(s, invalidate_cache=invalidate_cache)
         return added
 
+    @staticmethod
+    def _concretely_false(c):
+        try:
+            return len(c.variables) == 0 and backends.concrete.convert(c) is False
+        except BackendError:
+            return False
+
     def _add(self, constraints, invalidate_cache=True):
         split = self._split_constraints(constraints)
         child_added = []
@@ -290,6 +297,9 @@ class CompositeFrontend(ConstrainedFrontend):
                 try:
                     if any(backends.concrete.convert(c) is False for c in set_constraints):
                         self._unsat = True
+                        # no child holds a variable-free constraint: keep it in the constraint list, which is what
+                        # combine() hands over to the combined solver
+                        child_added += [c for c in set_constraints if self._concretely_false(c)]
                 except BackendError:
                     unsure.extend(set_constraints)
             else:
@@ -406,6 +416,10 @@ class CompositeFrontend(ConstrainedFrontend):
         if self.satisfiable(extra_constraints=extra_constraints):
             return ()
 
+        if self._unsat:
+            # the constraints that set the flag are held by no child
+            return [c for c in self.constraints if self._concretely_false(c)]
+
         cores = []
 
         for solver in self._solver_list:
@@ -496,6 +510,12 @@ class CompositeFrontend(ConstrainedFrontend):
                 merged._solvers[v] = s
 
         noncommon_solvers = [[s for s in cs._solver_list if id(s) not in common_ids] for cs in [self, *others]]
+        for cs, ns in zip([self, *others], noncommon_solvers, strict=True):
+            if cs._unsat:
+                # unsatisfiability that lives in the flag and not in a child takes part in the merge as well
+                unsat_child = self._template_frontend.blank_copy()
+                unsat_child.add([false()])
+                ns.append(unsat_child)
 
         log.debug("... merging noncommon solvers")
         combined_noncommons = []
@@ -514,9 +534,19 @@ class CompositeFrontend(ConstrainedFrontend):
 
             merged._owned_solvers.add(merged_noncommon)
             merged._store_child(merged_noncommon)
+            if len(merged_noncommon.variables) == 0 and not merged_noncommon.satisfiable():
+                # a child without variables cannot be registered under any name
+                merged._unsat = True
 
         merged.constraints = list(itertools.chain.from_iterable(a.constraints for a in merged._solver_list))
+        if merged._unsat:
+            merged.constraints.append(false())
         return True, merged
 
     def split(self):
-        return [s.branch() for s in self._solver_list]
+        parts = [s.branch() for s in self._solver_list]
+        if self._unsat:
+            unsat_part = self._template_frontend.blank_copy()
+            unsat_part.add([false()])
+            parts.append(unsat_part)
+        return parts
